@@ -91,16 +91,23 @@ theorem get_after_putRow {q : Quirks} {s s' : State} {bk bkx : Bucket} {b k : St
   obtain ⟨hg, _⟩ := get_current (q := q) hfb' hl hdm
   exact ⟨viewOf row, hg, by simp [viewOf, Row.content, hparts], by simp [viewOf, Row.size, Row.content, hparts]⟩
 
-/-- **append_extends.** In every state satisfying the invariant (hence every reachable state) and
-for every setting of the switches, an acknowledged AppendObject of `body` makes the next GET of the
-key return the previous current content followed by `body` — nothing lost, nothing reordered — and
-the acknowledged size is the size of exactly that. A key without a current object (absent, or
-hidden by a delete marker) counts as empty. -/
-theorem append_extends (q : Quirks) (s s1 : State) (hinv : Inv s) (b k : String) (body : Bytes) (off : Option Nat)
+/-- metadata of what an append extends (defaults when there is no current object) -/
+def exMeta (bk : Bucket) (k : String) : Option String × Pairs × Pairs × Option String :=
+  match latestRow bk k with
+  | some r => if r.dm then (none, [], [], none) else (r.ct, r.md, r.tags, r.cls)
+  | none => (none, [], [], none)
+
+/-- What an acknowledged append leaves as the current row of the key. -/
+def RowGoal (q : Quirks) (s1 : State) (b k : String) (bk : Bucket) (body : Bytes) (size : Nat) : Prop :=
+  ∃ bk' row, findBucket s1 b = some bk' ∧ latestRow bk' k = some row ∧ row.dm = false ∧
+    row.parts.flatten = (existingParts bk k).flatten ++ body ∧ size = ((existingParts bk k).flatten ++ body).length ∧
+    (q.appendEnabledDropsMeta = false → q.appendLatestInPlace = false →
+      (row.ct, row.md, row.tags, row.cls) = exMeta bk k)
+
+/-- Row-level core of `append_extends` (C12) and `append_keeps_metadata` (C11). -/
+theorem append_row (q : Quirks) (s s1 : State) (hinv : Inv s) (b k : String) (body : Bytes) (off : Option Nat)
     (bk : Bucket) (hfb : findBucket s b = some bk) (e : ETag) (size : Nat)
-    (hack : step q s (.append b k body off) = (s1, .appended e size)) :
-    ∃ v, (step q s1 (.get b k none)).2 = .obj v ∧ v.body = (existingParts bk k).flatten ++ body ∧
-      v.size = size ∧ size = ((existingParts bk k).flatten ++ body).length := by
+    (hack : step q s (.append b k body off) = (s1, .appended e size)) : RowGoal q s1 b k bk body size := by
   have hfb' : findBucket { s with clock := s.clock + 1 } b = some bk := hfb
   have hinv' : Inv { s with clock := s.clock + 1 } := inv_tick hinv
   have hbk := hinv bk (findBucket_mem hfb)
@@ -110,55 +117,57 @@ theorem append_extends (q : Quirks) (s s1 : State) (hinv : Inv s) (b k : String)
   have goalOf : ∀ (st : State) (row : Row) (bk2 : Bucket) (parts : List Bytes) (sz : Nat),
       findBucket st b = some bk2 → latestRow bk2 k = some row → row.dm = false → row.parts = parts →
       parts.flatten = (existingParts bk k).flatten ++ body → sz = parts.flatten.length →
+      (q.appendEnabledDropsMeta = false → q.appendLatestInPlace = false →
+        (row.ct, row.md, row.tags, row.cls) = exMeta bk k) →
       st = s1 → sz = size →
-      ∃ v, (step q s1 (.get b k none)).2 = .obj v ∧ v.body = (existingParts bk k).flatten ++ body ∧
-        v.size = size ∧ size = ((existingParts bk k).flatten ++ body).length := by
-    intro st row bk2 parts sz hf2 hl2 hdm hp hfl hsz hst hsize
+      RowGoal q s1 b k bk body size := by
+    intro st row bk2 parts sz hf2 hl2 hdm hp hfl hsz hmeta hst hsize
     subst hst
-    obtain ⟨hg, _⟩ := get_current (q := q) hf2 hl2 hdm
-    exact ⟨viewOf row, hg, by simp [viewOf, Row.content, hp, hfl], by simp [viewOf, Row.size, Row.content, hp, ← hsize, hsz],
-      by rw [← hsize, hsz, hfl]⟩
+    exact ⟨bk2, row, hf2, hl2, hdm, by rw [hp, hfl], by rw [← hsize, hsz, hfl], hmeta⟩
   -- every branch that goes through putRow
   have viaPut : ∀ (n : NewObj) (e' : ETag) (sz : Nat), n.parts.flatten = (existingParts bk k).flatten ++ body →
       sz = n.parts.flatten.length →
+      (q.appendEnabledDropsMeta = false → q.appendLatestInPlace = false →
+        (n.o.ct, n.o.md, n.o.tags, n.o.cls) = exMeta bk k) →
       (match putRow q { s with clock := s.clock + 1 } bk k n false IfMatch.none with
         | .error e => ({ s with clock := s.clock + 1 }, Out.err e)
         | .ok (s', _) => (s', Out.appended e' sz)) = (s1, Out.appended e size) →
-      ∃ v, (step q s1 (.get b k none)).2 = .obj v ∧ v.body = (existingParts bk k).flatten ++ body ∧
-        v.size = size ∧ size = ((existingParts bk k).flatten ++ body).length := by
-    intro n e' sz hfl hsz h
+      RowGoal q s1 b k bk body size := by
+    intro n e' sz hfl hsz hmeta h
     cases hp : putRow q { s with clock := s.clock + 1 } bk k n false IfMatch.none with
     | error err => simp [hp] at h
     | ok x =>
       obtain ⟨s', vid⟩ := x
       simp only [hp, Prod.mk.injEq, Out.appended.injEq] at h
       obtain ⟨hs, _, hsize⟩ := h
-      obtain ⟨bk', row, hfb2, hl2, _, hdm, hparts, _⟩ := putRow_current (h := hinv') hfb' hp
-      exact goalOf s' row bk' n.parts sz hfb2 hl2 hdm hparts hfl hsz hs hsize
+      obtain ⟨bk', row, hfb2, hl2, _, hdm, hparts, _, hct, hmd, htags, hcls, _, _⟩ := putRow_current (h := hinv') hfb' hp
+      exact goalOf s' row bk' n.parts sz hfb2 hl2 hdm hparts hfl hsz
+        (fun h1 h2 => by rw [hct, hmd, htags, hcls]; exact hmeta h1 h2) hs hsize
   -- every branch that re-saves the current row in place
   have inPlace : ∀ (r r' : Row) (e' : ETag) (sz : Nat), latestRow bk k = some r → r'.rowId = r.rowId → r'.key = r.key →
       r'.latest = true → r'.dm = false → r'.parts.flatten = (existingParts bk k).flatten ++ body →
       sz = r'.parts.flatten.length →
+      (q.appendEnabledDropsMeta = false → q.appendLatestInPlace = false →
+        (r'.ct, r'.md, r'.tags, r'.cls) = exMeta bk k) →
       (setBucket { s with clock := s.clock + 1 } (replaceRow bk r'), Out.appended e' sz) = (s1, Out.appended e size) →
-      ∃ v, (step q s1 (.get b k none)).2 = .obj v ∧ v.body = (existingParts bk k).flatten ++ body ∧
-        v.size = size ∧ size = ((existingParts bk k).flatten ++ body).length := by
-    intro r r' e' sz hl hid hkey hlat hdm hfl hsz h
+      RowGoal q s1 b k bk body size := by
+    intro r r' e' sz hl hid hkey hlat hdm hfl hsz hmeta h
     simp only [Prod.mk.injEq, Out.appended.injEq] at h
     obtain ⟨hs, _, hsize⟩ := h
     have hl' := latestRow_repl_keep hbk hl hid hkey hlat
     have hfb2 : findBucket (setBucket { s with clock := s.clock + 1 } (replaceRow bk r')) b = some (replaceRow bk r') :=
       findBucket_setBucket hfb' (by rw [replaceRow_name]; exact findBucket_some_name hfb)
-    exact goalOf _ r' _ r'.parts sz hfb2 hl' hdm rfl hfl hsz hs hsize
+    exact goalOf _ r' _ r'.parts sz hfb2 hl' hdm rfl hfl hsz hmeta hs hsize
   cases hl : latestRow bk k with
   | none =>
     have hex : existingParts bk k = [] := by unfold existingParts; rw [hl]
     simp only [hl] at hack
     split at hack
-    · exact viaPut _ _ _ (by simp [hex]) (by simp) hack
+    · exact viaPut _ _ _ (by simp [hex]) (by simp) (by intro h1 h2; first | (rw [hq] at h2; exact absurd h2 (by decide)) | simp [exMeta, hl, hdm, h1] | simp [exMeta, hl, h1]) hack
     · cases hq : q.appendLatestInPlace with
       | false =>
         simp only [hq, Bool.false_eq_true, if_false] at hack
-        exact viaPut _ _ _ (by simp [hex]) (by simp) hack
+        exact viaPut _ _ _ (by simp [hex]) (by simp) (by intro h1 h2; first | (rw [hq] at h2; exact absurd h2 (by decide)) | simp [exMeta, hl, hdm, h1] | simp [exMeta, hl, h1]) hack
       | true =>
         simp only [hq, if_true] at hack
         simp only [Prod.mk.injEq, Out.appended.injEq] at hack
@@ -170,39 +179,54 @@ theorem append_extends (q : Quirks) (s s1 : State) (hinv : Inv s) (b k : String)
           findBucket_setBucket hfb' (by rw [addRow_name]; exact findBucket_some_name hfb)
         have hfb3 : findBucket { (setBucket { s with clock := s.clock + 1 } (addRow bk row)) with nextRow := s.nextRow + 1 } b
             = some (addRow bk row) := hfb2
-        exact goalOf _ row _ row.parts _ hfb3 hl' (by rw [← hrow]) rfl (by rw [← hrow]; simp [hex]) (by rw [← hrow]) hs hsize
+        exact goalOf _ row _ row.parts _ hfb3 hl' (by rw [← hrow]) rfl (by rw [← hrow]; simp [hex]) (by rw [← hrow]) (by intro _ h2; rw [hq] at h2; exact absurd h2 (by decide)) hs hsize
   | some r0 =>
     simp only [hl] at hack
     by_cases hdm : r0.dm = true
     · have hex : existingParts bk k = [] := by unfold existingParts; rw [hl]; simp [hdm]
       simp only [hdm, if_true] at hack
       split at hack
-      · exact viaPut _ _ _ (by simp [hex]) (by simp) hack
+      · exact viaPut _ _ _ (by simp [hex]) (by simp) (by intro h1 h2; first | (rw [hq] at h2; exact absurd h2 (by decide)) | simp [exMeta, hl, hdm, h1] | simp [exMeta, hl, h1]) hack
       · cases hq : q.appendLatestInPlace with
         | true =>
           simp only [hq, if_true] at hack
           replace hack := ite_err_eq hack
-          refine inPlace r0 _ _ _ hl ?_ ?_ ?_ ?_ ?_ ?_ hack <;> first | rfl | simp [hex]
+          refine inPlace r0 _ _ _ hl ?_ ?_ ?_ ?_ ?_ ?_ ?_ hack <;> first | rfl | (intro h1 h2; first | (rw [hq] at h2; exact absurd h2 (by decide)) | simp [exMeta, hl, hdm, h1] | simp [exMeta, hl, h1]) | simp [hex]
         | false =>
           simp only [hq, Bool.false_eq_true, if_false] at hack
-          exact viaPut _ _ _ (by simp [hex]) (by simp) hack
+          exact viaPut _ _ _ (by simp [hex]) (by simp) (by intro h1 h2; first | (rw [hq] at h2; exact absurd h2 (by decide)) | simp [exMeta, hl, hdm, h1] | simp [exMeta, hl, h1]) hack
     · have hex : existingParts bk k = r0.parts := by unfold existingParts; rw [hl]; simp [hdm]
       simp only [hdm, Bool.false_eq_true, if_false] at hack
       split at hack
-      · exact viaPut _ _ _ (by simp [hex]) (by simp) hack
+      · exact viaPut _ _ _ (by simp [hex]) (by simp) (by intro h1 h2; first | (rw [hq] at h2; exact absurd h2 (by decide)) | simp [exMeta, hl, hdm, h1] | simp [exMeta, hl, h1]) hack
       · cases hq : q.appendLatestInPlace with
         | true =>
           simp only [hq, if_true] at hack
           replace hack := ite_err_eq hack
-          refine inPlace r0 _ _ _ hl ?_ ?_ ?_ ?_ ?_ ?_ hack <;> first | rfl | simp [hex]
+          refine inPlace r0 _ _ _ hl ?_ ?_ ?_ ?_ ?_ ?_ ?_ hack <;> first | rfl | (intro h1 h2; first | (rw [hq] at h2; exact absurd h2 (by decide)) | simp [exMeta, hl, hdm, h1] | simp [exMeta, hl, h1]) | simp [hex]
         | false =>
           simp only [hq, Bool.false_eq_true, if_false] at hack
           by_cases hv0 : r0.vid.isNone = true
           · simp only [hv0, if_true] at hack
             replace hack := ite_err_eq hack
-            refine inPlace r0 _ _ _ hl ?_ ?_ ?_ ?_ ?_ ?_ hack <;> first | rfl | simp [hex]
+            refine inPlace r0 _ _ _ hl ?_ ?_ ?_ ?_ ?_ ?_ ?_ hack <;> first | rfl | (intro h1 h2; first | (rw [hq] at h2; exact absurd h2 (by decide)) | simp [exMeta, hl, hdm, h1] | simp [exMeta, hl, h1]) | simp [hex]
           · simp only [hv0, Bool.false_eq_true, if_false] at hack
-            exact viaPut _ _ _ (by simp [hex]) (by simp) hack
+            exact viaPut _ _ _ (by simp [hex]) (by simp) (by intro h1 h2; first | (rw [hq] at h2; exact absurd h2 (by decide)) | simp [exMeta, hl, hdm, h1] | simp [exMeta, hl, h1]) hack
+
+
+/-- **append_extends.** In every state satisfying the invariant (hence every reachable state) and
+for every setting of the switches, an acknowledged AppendObject of `body` makes the next GET of the
+key return the previous current content followed by `body` — nothing lost, nothing reordered — and
+the acknowledged size is the size of exactly that. A key without a current object (absent, or
+hidden by a delete marker) counts as empty. -/
+theorem append_extends (q : Quirks) (s s1 : State) (hinv : Inv s) (b k : String) (body : Bytes) (off : Option Nat)
+    (bk : Bucket) (hfb : findBucket s b = some bk) (e : ETag) (size : Nat)
+    (hack : step q s (.append b k body off) = (s1, .appended e size)) :
+    ∃ v, (step q s1 (.get b k none)).2 = .obj v ∧ v.body = (existingParts bk k).flatten ++ body ∧
+      v.size = size ∧ size = ((existingParts bk k).flatten ++ body).length := by
+  obtain ⟨bk', row, hf2, hl2, hdm, hfl, hsz, _⟩ := append_row q s s1 hinv b k body off bk hfb e size hack
+  obtain ⟨hg, _⟩ := get_current (q := q) hf2 hl2 hdm
+  exact ⟨viewOf row, hg, by simp [viewOf, Row.content, hfl], by simp [viewOf, Row.size, Row.content, hfl, hsz], hsz⟩
 
 /-- `append_extends` in terms of what GET reported before the append. -/
 theorem append_extends_get (q : Quirks) (s s1 : State) (hinv : Inv s) (b k : String) (body : Bytes) (off : Option Nat)
